@@ -560,3 +560,30 @@ def stores_between(cfg, t_nid, n_nid, names):
         if k & set(names):
             return x
     return None
+
+
+def vars_assigned_from(f, pred):
+    """local names with a definition whose value satisfies pred (tuple-unpacked definitions: pred gets the call)."""
+    out = []
+    for n in walk_shallow(f.node):
+        if isinstance(n, ast.Assign):
+            for t in n.targets:
+                if isinstance(t, ast.Name) and pred(n.value):
+                    out.append(t.id)
+                elif isinstance(t, (ast.Tuple, ast.List)) and pred(n.value):
+                    out += [e.id for e in t.elts if isinstance(e, ast.Name)]
+        elif isinstance(n, ast.AnnAssign) and isinstance(n.target, ast.Name) and n.value is not None and pred(n.value):
+            out.append(n.target.id)
+    return out
+
+
+def var_from_call(f, callee_name, index=None):
+    """name of the local that receives the result of a call to <callee_name> (index: position in a tuple-unpack)"""
+    for n in walk_shallow(f.node):
+        if isinstance(n, ast.Assign) and isinstance(n.value, ast.Call) and fn_name(n.value) == callee_name:
+            t = n.targets[0]
+            if isinstance(t, ast.Name) and index is None:
+                return t.id
+            if isinstance(t, (ast.Tuple, ast.List)) and index is not None and index < len(t.elts) and isinstance(t.elts[index], ast.Name):
+                return t.elts[index].id
+    return None
